@@ -129,7 +129,8 @@ func renderResult(stdout io.Writer, opts renderOptions, data lokiapi.QueryRespon
 						containerColors = map[string]string{}
 					}
 					if _, ok := containerColors[container]; !ok {
-						colorName := names[len(containerColors)%len(names)+1]
+						// Cycle through the palette, skipping names[0] (grey).
+						colorName := names[len(containerColors)%(len(names)-1)+1]
 						containerColors[container] = colors[colorName]
 					}
 				}
